@@ -299,3 +299,129 @@ class PersistMonitor(Monitor):
                 ps = reload_problems(sim)
                 if ps:
                     self.problems.append((name, sim.steps, ps[:4]))
+
+
+# ------------------------------------------------------------------------------------------------ cursor monitor
+_processed_hooked = [False]
+_processed_log = []         # (id(event manager), side, new_cursor) appended when EventManager._process_event returns
+
+
+def hook_process_event():
+    """Class-level observation of EventManager._process_event completing (observation only)."""
+    if _processed_hooked[0]:
+        return
+    from cloudsync.event import EventManager
+    orig = EventManager._process_event                     # pylint: disable=protected-access
+
+    def _process_event(self, event, from_walk=False):
+        r = orig(self, event, from_walk=from_walk)
+        c = getattr(event, "new_cursor", None)
+        if c is not None:
+            _processed_log.append((self.side, c))
+        return r
+    EventManager._process_event = _process_event           # pylint: disable=protected-access
+    _processed_hooked[0] = True
+
+
+class CursorMonitor(Monitor):
+    """The persisted event cursor never runs ahead of an event that was handed to the engine but not yet processed:
+    at every write of a cursor row with value c no event with index <= c may be 'yielded and unprocessed'; after a
+    restart the stored cursor must lie below every such event (it will be delivered again)."""
+
+    def __init__(self):
+        hook_process_event()
+        self.problems = []
+        self.cursor_writes = 0
+        self.checked_restarts = 0
+
+    def on_sim(self, sim, case):
+        del _processed_log[:]
+        self.sim = sim
+        if sim.storage is not None:
+            sim.storage.on_write = self._on_write
+
+    def _side_of(self, tag):
+        for side in (0, 1):
+            if (":%s:" % self.sim.providers[side].connection_id) in tag and self.sim.providers[side].name in tag:
+                return side
+        return None
+
+    def _drain_processed(self):
+        for side, c in _processed_log:
+            self.sim.taps[side].yielded.discard(c)
+        del _processed_log[:]
+
+    def _on_write(self, op, tag, eid, data):
+        if "_cursor" not in tag or op == "delete" or not isinstance(data, int):
+            return
+        side = self._side_of(tag)
+        if side is None:
+            return
+        self._drain_processed()
+        self.cursor_writes += 1
+        pend = [c for c in self.sim.taps[side].yielded if c <= data]
+        if pend and len(self.problems) < 4:
+            self.problems.append(("cursor_saved_before_its_events_were_applied", side, data, sorted(pend)[:4]))
+
+    def after_restart(self, sim, mode):
+        # the in-memory queue is gone: whatever was yielded and not processed must be delivered again
+        self._drain_processed()
+        if sim.storage is not None:
+            sim.storage.on_write = self._on_write
+        if mode in ("nocursor", "badcursor"):
+            for t in sim.taps:
+                t.yielded.clear()
+            return
+        self.checked_restarts += 1
+        rows = sim._inner_storage.read_all()                # pylint: disable=protected-access
+        for tag, r in rows.items():
+            if "_cursor" not in tag:
+                continue
+            side = self._side_of(tag)
+            if side is None:
+                continue
+            for c in r.values():
+                if isinstance(c, int):
+                    pend = [x for x in sim.taps[side].yielded if x <= c]
+                    if pend and len(self.problems) < 4:
+                        self.problems.append(("stored_cursor_skips_unprocessed_event", side, c, sorted(pend)[:4]))
+        for t in sim.taps:
+            t.yielded.clear()
+
+
+# ------------------------------------------------------------------------------------------------ tracer (debugging aid)
+class Tracer(Monitor):
+    """Prints user ops, engine writes, restarts and crashes as they happen (VERIF_TRACE=1)."""
+    n = 0
+
+    def _flush(self, sim):
+        for c in sim.world.calls[self.n:]:
+            if c["op"] in S.WRITES or c.get("exc"):
+                print("   ENGINE", brief_call(c), "victim=%r" % ((c.get("victim") or b"")[:10]), "ev=%s" % c.get("ev"))
+        self.n = len(sim.world.calls)
+
+    def after_step(self, sim, name):
+        self._flush(sim)
+
+    def after_user(self, sim, rec):
+        self._flush(sim)
+        print("USER", "LR"[rec["side"]], rec["op"], rec["path"], rec.get("to"), "ok" if rec.get("ok") else rec.get("exc"),
+              "step", sim.steps)
+
+    def before_restart(self, sim, mode):
+        print("STOP", mode, "step", sim.steps)
+
+    def at_crash(self, sim):
+        self._flush(sim)
+        print("CRASH", sim.world.crash_site, "step", sim.steps)
+        print(sim.state.pretty_print(use_sigs=False))
+
+    def after_restart(self, sim, mode):
+        print("RESTARTED", mode)
+        print(sim.state.pretty_print(use_sigs=False))
+
+    def at_quiescence(self, sim, final):
+        self._flush(sim)
+        if final:
+            print("FINAL", sorted(sim.tree(0)), sorted(sim.tree(1)))
+            print(sim.state.pretty_print(use_sigs=False))
